@@ -11,6 +11,7 @@ import (
 	"fmt"
 	"os"
 	"path/filepath"
+	"reflect"
 	"strconv"
 	"strings"
 	"time"
@@ -206,6 +207,189 @@ func doEnum(c *core.Ctx, mode string, n *core.N) {
 	c.Emit("C17.enum", mode, before, text0, recs.String(), strconv.Itoa(calls), wfF, same(dF, before), same(tF, text0))
 }
 
+// ---- pointer-level observation (tie of Model/C17Heap.lean) ----
+
+// heapView reads, through the public accessors and pointer identity, the records of the six
+// nodes an nni remembers (their neigh and br slices) and of the five branches between them
+// (left, right).  The node pointers are read from the unexported fields of the nni by reflection.
+type heapView struct {
+	nodes  [6]*tree.Node // n1 n2 a(n1_1) b(n1_2) c(n2_1) d(n2_2)
+	edges  [5]*tree.Edge // e0, and the branches of a b c d
+	nodeId map[*tree.Node]string
+	edgeId map[*tree.Edge]string
+	cross  bool
+}
+
+var refNames = [6]string{"n1", "n2", "a", "b", "c", "d"}
+var nniFields = [6]string{"n1", "n2", "n1_1", "n1_2", "n2_1", "n2_2"}
+
+func newHeapView(t *tree.Tree, re tree.Rearrangement) (*heapView, string) {
+	v := reflect.ValueOf(re)
+	if v.Kind() != reflect.Ptr || v.Elem().Kind() != reflect.Struct {
+		return nil, "rearrangement is not a pointer to a struct"
+	}
+	byPtr := map[uintptr]*tree.Node{}
+	hv := &heapView{nodeId: map[*tree.Node]string{}, edgeId: map[*tree.Edge]string{}}
+	for i, n := range t.Nodes() {
+		byPtr[reflect.ValueOf(n).Pointer()] = n
+		hv.nodeId[n] = fmt.Sprintf("x%d", i)
+	}
+	for i, e := range t.Edges() {
+		hv.edgeId[e] = fmt.Sprintf("y%d", i)
+	}
+	for i, f := range nniFields {
+		fv := v.Elem().FieldByName(f)
+		if !fv.IsValid() || fv.Kind() != reflect.Ptr {
+			return nil, "nni has no pointer field " + f
+		}
+		n := byPtr[fv.Pointer()]
+		if n == nil {
+			return nil, "nni field " + f + " is not a node of the tree"
+		}
+		hv.nodes[i] = n
+		hv.nodeId[n] = refNames[i]
+	}
+	cv := v.Elem().FieldByName("cross")
+	if !cv.IsValid() || cv.Kind() != reflect.Bool {
+		return nil, "nni has no bool field cross"
+	}
+	hv.cross = cv.Bool()
+	// the five branches, by their position in the slices of the two centre nodes
+	find := func(from, to *tree.Node) *tree.Edge {
+		for i, nb := range from.Neigh() {
+			if nb == to && i < len(from.Edges()) {
+				return from.Edges()[i]
+			}
+		}
+		return nil
+	}
+	pairs := [5][2]int{{0, 1}, {0, 2}, {0, 3}, {1, 4}, {1, 5}}
+	names := [5]string{"e0", "ea", "eb", "ec", "ed"}
+	for i, p := range pairs {
+		e := find(hv.nodes[p[0]], hv.nodes[p[1]])
+		if e == nil {
+			return nil, "no branch between " + refNames[p[0]] + " and " + refNames[p[1]]
+		}
+		hv.edges[i] = e
+		hv.edgeId[e] = names[i]
+	}
+	return hv, ""
+}
+
+func (hv *heapView) nid(n *tree.Node) string {
+	if s, ok := hv.nodeId[n]; ok {
+		return s
+	}
+	return "x999999"
+}
+
+// snapshot: N1/N2/A/B/C/D/E0/EA/EB/EC/ED ; a node is "neigh,ids:br,ids", a branch "left>right"
+func (hv *heapView) snapshot() string {
+	var parts []string
+	for _, n := range hv.nodes {
+		var ng, br []string
+		for _, x := range n.Neigh() {
+			ng = append(ng, hv.nid(x))
+		}
+		for _, e := range n.Edges() {
+			if s, ok := hv.edgeId[e]; ok {
+				br = append(br, s)
+			} else {
+				br = append(br, "y999999")
+			}
+		}
+		parts = append(parts, strings.Join(ng, ",")+":"+strings.Join(br, ","))
+	}
+	for _, e := range hv.edges {
+		parts = append(parts, hv.nid(e.Left())+">"+hv.nid(e.Right()))
+	}
+	return strings.Join(parts, "/")
+}
+
+// pathOf: child-index path (as in the α dump) from the root to n
+func pathOf(t *tree.Tree, target *tree.Node) string {
+	var res []string
+	var rec func(cur, prev *tree.Node, p []string) bool
+	rec = func(cur, prev *tree.Node, p []string) bool {
+		if cur == target {
+			res = p
+			return true
+		}
+		j := 0
+		for _, nb := range cur.Neigh() {
+			if nb == prev {
+				continue
+			}
+			if rec(nb, cur, append(append([]string(nil), p...), strconv.Itoa(j))) {
+				return true
+			}
+			j++
+		}
+		return false
+	}
+	rec(t.Root(), nil, nil)
+	return strings.Join(res, ".")
+}
+
+// doHeap: for every rearrangement the records of the piece before Apply, after Apply, after Undo.
+// variant "rr": the tree is re-rooted (real Reroot, at an inner node drawn at random) after the nni
+// was created and again between Apply and Undo, so that the root may lie behind any of the four
+// outer nodes (commit 48c858a); it is re-rooted at its original root before the next rearrangement.
+func doHeap(c *core.Ctx, variant string, seed int64, n *core.N) {
+	t, err := core.Build(n)
+	if err != nil {
+		panic(err)
+	}
+	g := core.NewG(seed)
+	orig := t.Root()
+	var inner []*tree.Node
+	for _, x := range t.Nodes() {
+		if x.Nneigh() >= 2 {
+			inner = append(inner, x)
+		}
+	}
+	reroot := func() string {
+		if variant != "rr" || len(inner) == 0 {
+			return "ok"
+		}
+		return outcome(func() error { return t.Reroot(inner[g.Intn(len(inner))]) })
+	}
+	var recs strings.Builder
+	r := &tree.NNIRearranger{}
+	runOut := outcome(func() error {
+		r.Rearrange(t, func(re tree.Rearrangement) bool {
+			hv, msg := newHeapView(t, re)
+			if hv == nil {
+				fmt.Fprintf(&recs, "noview;%s;;;;;|", core.Escape(msg))
+				return true
+			}
+			path := pathOf(t, hv.nodes[0])
+			r1 := reroot()
+			s0 := hv.snapshot()
+			a := outcome(re.Apply)
+			s1 := hv.snapshot()
+			r2 := reroot()
+			s1b := hv.snapshot()
+			u := outcome(re.Undo)
+			s2 := hv.snapshot()
+			r3 := "ok"
+			if variant == "rr" {
+				r3 = outcome(func() error { return t.Reroot(orig) })
+			}
+			rr := "ok"
+			if r1 != "ok" || r2 != "ok" || r3 != "ok" {
+				rr = "reroot-failed"
+			}
+			_, wf := core.Alpha(t)
+			wfs := wfString(wf)
+			fmt.Fprintf(&recs, "%s+%s+%s+%s;%v;%s;%s;%s;%s;%s|", a, u, rr, wfs, hv.cross, path, s0, s1, s1b, s2)
+			return true
+		})
+		return nil
+	})
+	c.Emit("C17.heap", variant, strconv.FormatInt(seed, 10), n.Dump(), runOut, recs.String())
+}
+
 // parseDump reads one Newick text with the repository's parser and returns the α dump.
 func parseDump(text string) (string, string) {
 	var t *tree.Tree
@@ -370,6 +554,13 @@ func Replay(c *core.Ctx, lines []string) {
 				panic(err)
 			}
 			doCLI(c, n)
+		case f[0] == "C17.heap" && len(f) >= 4:
+			n, err := core.ParseDump(f[3])
+			if err != nil {
+				panic(err)
+			}
+			seed, _ := strconv.ParseInt(f[2], 10, 64)
+			doHeap(c, f[1], seed, n)
 		case f[0] == "C17.glue" && len(f) >= 3 && c.Gotree != "":
 			n, err := core.ParseDump(f[2])
 			if err != nil {
@@ -400,6 +591,13 @@ func pickMode(g *core.G, n *core.N) string {
 	return "plain"
 }
 
+func heapVariant(g *core.G) string {
+	if g.Chance(0.5) {
+		return "rr"
+	}
+	return "plain"
+}
+
 // Run generates the cases of C17.
 func Run(c *core.Ctx) {
 	if c.Arg != "" {
@@ -407,10 +605,15 @@ func Run(c *core.Ctx) {
 		return
 	}
 	nbase := c.Scale(70, 800)
-	for i := 0; i < nbase; i++ {
+	nlarge := c.Scale(20, 12) // base trees on 15..40 tips (a sample of their root positions each)
+	for i := 0; i < nbase+nlarge; i++ {
 		var base *core.N
 		for {
-			base, _ = c.G.Tree(opts(c.G, !c.Quick()))
+			o := opts(c.G, !c.Quick())
+			if i >= nbase {
+				o.MinTips, o.MaxTips = 17, 40
+			}
+			base, _ = c.G.Tree(o)
 			if binary(base, true) && len(base.Kids) == 3 {
 				break
 			}
@@ -424,11 +627,15 @@ func Run(c *core.Ctx) {
 		}
 		// every root position: re-root the Go tree at every inner node
 		large := len(base.TipNames()) > 16
+		largeShare := 0.15
+		if c.Quick() {
+			largeShare = 0.04
+		}
 		for _, p := range base.Paths() {
 			if x := base.At(p); len(x.Kids) < 2 {
 				continue
 			}
-			if large && len(p) > 0 && !c.G.Chance(0.15) {
+			if large && len(p) > 0 && !c.G.Chance(largeShare) {
 				continue
 			}
 			t, err := core.Build(base)
@@ -449,6 +656,9 @@ func Run(c *core.Ctx) {
 				panic("c17: re-rooted tree malformed: " + strings.Join(wf.Problems, "/"))
 			}
 			doEnum(c, pickMode(c.G, un), un)
+			if c.G.Chance(0.3) {
+				doHeap(c, heapVariant(c.G), int64(c.G.Intn(1<<30)), un)
+			}
 			// the rooted twin: root on one of the three branches at that node
 			first := c.G.Intn(3)
 			for i := 0; i < 3; i++ {
@@ -457,6 +667,9 @@ func Run(c *core.Ctx) {
 				}
 				ro := rootOnEdge(c.G, un, i)
 				doEnum(c, pickMode(c.G, ro), ro)
+				if c.G.Chance(0.3) {
+					doHeap(c, heapVariant(c.G), int64(c.G.Intn(1<<30)), ro)
+				}
 			}
 		}
 	}
